@@ -103,6 +103,19 @@ def oracle(res, cfg, o, rng, limit):
                 res.fail('all_leaves differs from every element being a leaf', case)
 
 
+def _replace_leaf_by_none(o):
+    out = (1, (0,))
+    # rebuild the chain bottom-up without recursion
+    chain = []
+    cur = o
+    while cur[0] == 1 and len(cur) > 2:
+        chain.append(cur[1])
+        cur = cur[2]
+    for h in reversed(chain):
+        out = (1, h, out)
+    return out
+
+
 def oracle_reduce(res, rng):
     # reductions over integer leaves
     g = gen.TreeGen(rng, world.STRUCTSEQ_ARITY, max_nodes=20, max_depth=5, max_arity=4,
@@ -153,6 +166,12 @@ def run(res, tier, seed):
         for d in (limit, limit + 1):
             cfg = (0, 0, 0, ((0, 0, 1, 0),), (), limit)
             cases.append((cfg, gen.depth_tree(kind, d), 'deep'))
+    # over-deep tree whose deepest object is accepted by the predicate (depth is checked first)
+    for kind in ['tuple', 'list', 'dict']:
+        for d in (limit, limit + 1, limit + 3):
+            cases.append(((0, 0, 3, (), (), limit), gen.depth_tree(kind, d, leaf_id=3), 'deep'))
+            t = gen.depth_tree(kind, d)
+            cases.append(((0, 0, 5, (), (), limit), _replace_leaf_by_none(t), 'deep'))
     cfgk = (0, 0, 0, ((0, 0, 1, 0),), (), limit)
     cases.append((cfgk, (1, (9, 0, 0, (2, (0, 0), (0, 1))), gen.depth_tree('list', limit + 1)), 'k1'))
     cmds, obs = [], []
